@@ -173,6 +173,18 @@ CLAIMED['C12'] = dict(
          'C12:signed-zero-bounds (F29). BoundsOK (rendered le text is a fixpoint of parse∘render) is validated per generated bound. Inherits the preconditions of C08/C09.',
     ref='DESIGN.md 5 C12')
 
+CLAIMED['C04'] = dict(
+    text='On the OpenMetrics exposition and parser models (parser factored as assemble ∘ map parseLine ∘ docLines, proved equal to the monolithic fold) the round trip is proved for ALL strings: '
+         'om_help_roundtrip, om_labels_roundtrip(_named), om_timestamp_roundtrip (int, Timestamp, plain and exponent floats, by denoted value), om_exemplar_roundtrip (through the character state '
+         'machine, any quotes/backslashes), om_sample_line_roundtrip (every combination of name kind × labels × value × timestamp form × exemplar), not_nh_on_rendered_line; at document level '
+         'om_exposition_parse and om_roundtrip_partial (ExpressibleOM fs → omParse (generateLatest fs) = ok fs\' ≈ fs for any number of families), ruleClean_breaks_no_c15_rule; converse at line level '
+         '(om_reparse_partial, om_reparse_timestamp). Real registries with units, _created, three timestamp forms and exemplars over an adversarial alphabet are exposed, parsed and compared; generated '
+         'accepted documents go through parse → expose → parse.',
+    note='Known findings (listed): C04:negative-bound-count-without-sum (F17), C04:duplicate-mixed-timestamp-spelling (F30), C04:label-name-unvalidated:* (F20b). Domain = rule-clean content (C15 obliges '
+         'the parser to reject e.g. NaN counters), stated as the decidable predicate RuleClean through the parser\'s rule layer; nan/inf timestamps are rule content. The document-level converse is '
+         'covered by the harness only.',
+    ref='DESIGN.md 5 C04')
+
 PENDING_REASON = 'not claimed yet: model/theorems for this property are not built at this commit (work order in DESIGN.md 8); no other technique is substituted'
 
 
